@@ -131,7 +131,7 @@ def run(ctx, pid, prefixes, what, assumptions):
                        "statement on its own line with a site id, nested at random depth 0-3 under if/for/switch/select/closure/defer/go/block, inside functions, methods, "
                        "constructor-named functions, @testonly functions and package-level initialisers; type spelled directly, through an import alias, a third-package alias, a local alias or a dot import; "
                        "the binary (-json) and the model (ggx skel -> modelrun) are run on the whole module under the default and the scan-tests configuration and compared by (file, line, code). "
-                       "evaluations = candidate sites x configurations; non-trivial = distinct (site, code, configuration) actually reported with a code of this property" % res["n"])
+                       "plus a six-run `go vet -vettool` sequence on one fresh build cache in which earlier runs exclude this checker's category through the environment (vet_cache_sequence). evaluations = candidate sites x configurations; non-trivial = distinct (site, code, configuration) actually reported with a code of this property" % res["n"])
     rep.cov["input_distribution"] = {k: res["stats"][k] for k in ("tags", "depth", "nest", "place", "spelling", "tdoc")}
     some = [d for d in res["configs"]["default"]["impl"] if d["code"].startswith(prefixes)][:3]
     rep.cov["samples"] = [{"file": d["file"], "line": d["line"], "code": d["code"],
